@@ -1,4 +1,4 @@
-import OtelVerif.Model.Metrics.SyncStorage
+import OtelVerif.Model.Metrics.Meter
 import OtelVerif.Lemmas.Metrics
 /-! # C06 — counter measurements are conserved across readers, temporalities and threads
 
@@ -763,5 +763,459 @@ theorem cumulative_starts_at_sdk_start_rev (c : Cfg) (h : List SOp) (r : Nat) (m
   obtain ⟨_, _, htemp, hstart⟩ := matches_some c r o ts md hm
   rw [hc] at hstart htemp
   exact ⟨hstart, htemp⟩
+
+/-! ### reader non-interference -/
+
+/-- keep the recordings and reader `r`'s own collections -/
+def keepFor (r : Nat) : SOp → Bool
+  | .add _ _ => true
+  | .collect r' _ => r' == r
+
+/-- the history with every other reader's collections removed -/
+def withoutOthers (r : Nat) (h : List SOp) : List SOp := h.filter (keepFor r)
+
+theorem wo_add (r a : Nat) (v : Int) (o : List SOp) : withoutOthers r (.add a v :: o) = .add a v :: withoutOthers r o := by
+  simp [withoutOthers, List.filter_cons, keepFor]
+theorem wo_self (r ts : Nat) (o : List SOp) : withoutOthers r (.collect r ts :: o) = .collect r ts :: withoutOthers r o := by
+  simp [withoutOthers, List.filter_cons, keepFor]
+theorem wo_other (r r' ts : Nat) (o : List SOp) (h : r' ≠ r) : withoutOthers r (.collect r' ts :: o) = withoutOthers r o := by
+  have : (r' == r) = false := by simp [h]
+  simp [withoutOthers, List.filter_cons, keepFor, this]
+
+theorem recorded_wo (r : Nat) : ∀ (h : List SOp) (a : Nat), recorded (withoutOthers r h) a = recorded h a
+  | [], _ => rfl
+  | .add a' v :: o, a => by rw [wo_add]; simp [recorded, recorded_wo r o a]
+  | .collect r' ts :: o, a => by
+    by_cases he : r' = r
+    · subst he; rw [wo_self]; simp [recorded, recorded_wo r' o a]
+    · rw [wo_other r r' ts o he]; simp [recorded, recorded_wo r o a]
+
+theorem recSince_wo (r : Nat) : ∀ (h : List SOp) (a : Nat), recSince r (withoutOthers r h) a = recSince r h a
+  | [], _ => rfl
+  | .add a' v :: o, a => by rw [wo_add]; simp [recSince, recSince_wo r o a]
+  | .collect r' ts :: o, a => by
+    by_cases he : r' = r
+    · subst he; rw [wo_self]; simp [recSince]
+    · rw [wo_other r r' ts o he]; simp [recSince, he, recSince_wo r o a]
+
+theorem addedEver_wo (r : Nat) : ∀ (h : List SOp) (a : Nat), addedEver (withoutOthers r h) a = addedEver h a
+  | [], _ => rfl
+  | .add a' v :: o, a => by rw [wo_add]; simp [addedEver, addedEver_wo r o a]
+  | .collect r' ts :: o, a => by
+    by_cases he : r' = r
+    · subst he; rw [wo_self]; simp [addedEver, addedEver_wo r' o a]
+    · rw [wo_other r r' ts o he]; simp [addedEver, addedEver_wo r o a]
+
+theorem addedSince_wo (r : Nat) : ∀ (h : List SOp) (a : Nat), addedSince r (withoutOthers r h) a = addedSince r h a
+  | [], _ => rfl
+  | .add a' v :: o, a => by rw [wo_add]; simp [addedSince, addedSince_wo r o a]
+  | .collect r' ts :: o, a => by
+    by_cases he : r' = r
+    · subst he; rw [wo_self]; simp [addedSince]
+    · rw [wo_other r r' ts o he]; simp [addedSince, he, addedSince_wo r o a]
+
+theorem anyAdd_wo (r : Nat) : ∀ (h : List SOp), anyAdd (withoutOthers r h) = anyAdd h
+  | [] => rfl
+  | .add a' v :: o => by rw [wo_add]; simp [anyAdd]
+  | .collect r' ts :: o => by
+    by_cases he : r' = r
+    · subst he; rw [wo_self]; simp [anyAdd, anyAdd_wo r' o]
+    · rw [wo_other r r' ts o he]; simp [anyAdd, anyAdd_wo r o]
+
+theorem anyAddSince_wo (r : Nat) : ∀ (h : List SOp), anyAddSince r (withoutOthers r h) = anyAddSince r h
+  | [] => rfl
+  | .add a' v :: o => by rw [wo_add]; simp [anyAddSince]
+  | .collect r' ts :: o => by
+    by_cases he : r' = r
+    · subst he; rw [wo_self]; simp [anyAddSince]
+    · rw [wo_other r r' ts o he]; simp [anyAddSince, he, anyAddSince_wo r o]
+
+theorem reports_wo (c : Cfg) (r : Nat) (h : List SOp) : reports c r (withoutOthers r h) = reports c r h := by
+  simp [reports, anyAdd_wo, anyAddSince_wo]
+
+theorem lastOut_wo (c : Cfg) (r : Nat) : ∀ (h : List SOp), lastOut c r (withoutOthers r h) = lastOut c r h
+  | [] => rfl
+  | .add a' v :: o => by rw [wo_add]; simp [lastOut, lastOut_wo c r o]
+  | .collect r' ts :: o => by
+    by_cases he : r' = r
+    · subst he; rw [wo_self]; simp [lastOut, reports_wo, lastOut_wo c r' o]
+    · rw [wo_other r r' ts o he]; simp [lastOut, he, lastOut_wo c r o]
+
+/-- what `r` must receive does not depend on the other readers' collections -/
+theorem expected_wo (c : Cfg) (r : Nat) (h : List SOp) (ts : Nat) :
+    expected c r (withoutOthers r h) ts = expected c r h ts := by
+  have h1 : recSince r (withoutOthers r h) = recSince r h := funext (recSince_wo r h)
+  have h2 : addedSince r (withoutOthers r h) = addedSince r h := funext (addedSince_wo r h)
+  have h3 : recorded (withoutOthers r h) = recorded h := funext (recorded_wo r h)
+  have h4 : addedEver (withoutOthers r h) = addedEver h := funext (addedEver_wo r h)
+  simp [expected, reports_wo, lastOut_wo, h1, h2, h3, h4]
+
+/-- two observations are the same: both nothing, or the same temporality and interval and the same set of points
+    with the same values (the hash map's iteration order is not an observation) -/
+def MDEquiv : Option MetricData → Option MetricData → Prop
+  | none, none => True
+  | some x, some y => x.temporality = y.temporality ∧ x.startTs = y.startTs ∧ x.endTs = y.endTs ∧
+      (∀ a, valAt x.points a = valAt y.points a) ∧ (∀ a, has x.points a = has y.points a)
+  | _, _ => False
+
+theorem equiv_of_matches {x y : Option MetricData} {e : Option Expected} (hx : Matches x e) (hy : Matches y e) :
+    MDEquiv x y := by
+  cases x <;> cases y <;> cases e <;> simp only [Matches, MDEquiv] at * <;> try trivial
+  exact ⟨hx.1.trans hy.1.symm, hx.2.1.trans hy.2.1.symm, hx.2.2.1.trans hy.2.2.1.symm,
+    fun a => (hx.2.2.2.1 a).trans (hy.2.2.2.1 a).symm, fun a => (hx.2.2.2.2.1 a).trans (hy.2.2.2.2.1 a).symm⟩
+
+/-- **reader_noninterference** (one collection): what `r` receives after history `h` is what it receives after the
+    same history with all other readers' collections removed. -/
+theorem reader_noninterference_step (c : Cfg) (h : List SOp) (r ts : Nat) (hr : r < c.n) :
+    MDEquiv (collect c (srunRev c h).1 r ts).2 (collect c (srunRev c (withoutOthers r h)).1 r ts).2 := by
+  have h1 := collect_matches c h r ts hr
+  have h2 := collect_matches c (withoutOthers r h) r ts hr
+  rw [expected_wo] at h2
+  exact equiv_of_matches h1 h2
+
+/-- two sequences of `MetricData` are the same, observation by observation -/
+def SameSeq : List MetricData → List MetricData → Prop
+  | [], [] => True
+  | x :: xs, y :: ys => MDEquiv (some x) (some y) ∧ SameSeq xs ys
+  | _, _ => False
+
+/-- **reader_noninterference**: the whole sequence of `MetricData` reader `r` receives over a history equals,
+    observation by observation, the sequence it receives when no other reader ever collects. -/
+theorem reader_noninterference_rev (c : Cfg) (r : Nat) (hr : r < c.n) : ∀ h : List SOp,
+    SameSeq (outsFor r (srunRev c h).2) (outsFor r (srunRev c (withoutOthers r h)).2)
+  | [] => by simp [srunRev, outsFor, withoutOthers, SameSeq]
+  | .add a v :: o => by rw [wo_add, outs_cons_add, outs_cons_add]; exact reader_noninterference_rev c r hr o
+  | .collect r' ts :: o => by
+    have ih := reader_noninterference_rev c r hr o
+    by_cases he : r' = r
+    · subst he
+      rw [wo_self, outs_cons_collect, outs_cons_collect]
+      have hs := reader_noninterference_step c o r' ts hr
+      cases h1 : (collect c (srunRev c o).1 r' ts).2 with
+      | none =>
+        cases h2 : (collect c (srunRev c (withoutOthers r' o)).1 r' ts).2 with
+        | none => exact ih
+        | some y => rw [h1, h2] at hs; simp [MDEquiv] at hs
+      | some x =>
+        cases h2 : (collect c (srunRev c (withoutOthers r' o)).1 r' ts).2 with
+        | none => rw [h1, h2] at hs; simp [MDEquiv] at hs
+        | some y =>
+          rw [h1, h2] at hs
+          simp only [outsFor_cons_self]
+          exact ⟨hs, ih⟩
+    · rw [wo_other r r' ts o he, outs_cons_collect]
+      cases h1 : (collect c (srunRev c o).1 r' ts).2 with
+      | none => exact ih
+      | some x => simp only [outsFor_cons_other r r' x _ he]; exact ih
+
+/-! ## The meter: every handle and every view stream counts -/
+
+/-- the handles created in a history (most recent operation first), in creation order -/
+def created : List MOp → List (Nat × Kind)
+  | [] => []
+  | .create n k :: o => created o ++ [(n, k)]
+  | .add _ _ _ :: o => created o
+  | .collect _ :: o => created o
+
+/-- number of collections in a history = the logical stamp of the most recent one -/
+def collectsIn : List MOp → Nat
+  | [] => 0
+  | .collect _ :: o => collectsIn o + 1
+  | .create _ _ :: o => collectsIn o
+  | .add _ _ _ :: o => collectsIn o
+
+/-- **The operations of a meter history that concern stream `key`**: every `Add` made through *any* handle created
+    for the instrument `(key.name, key.kind)` (with the value as it reaches the aggregation), and every collection,
+    stamped with its index.  This is the specification of the fan-out: it mentions neither the registry nor which
+    handle or view came first. -/
+def proj (mc : MCfg) (key : StreamKey) : List MOp → List SOp
+  | [] => []
+  | .create _ _ :: o => proj mc key o
+  | .add hd a v :: o =>
+    match (created o)[hd]? with
+    | none => proj mc key o
+    | some (n, k) =>
+      if n = key.name ∧ k = key.kind ∧ key.view < nStreams mc n k then
+        match effective k v with
+        | none => proj mc key o
+        | some v' => .add a v' :: proj mc key o
+      else proj mc key o
+  | .collect r :: o => .collect r (collectsIn o + 1) :: proj mc key o
+
+theorem mem_streamKeys (mc : MCfg) (n : Nat) (k : Kind) (key : StreamKey) :
+    key ∈ streamKeys mc n k ↔ n = key.name ∧ k = key.kind ∧ key.view < nStreams mc n k := by
+  unfold streamKeys
+  simp only [List.mem_map, List.mem_range]
+  constructor
+  · rintro ⟨j, hj, rfl⟩; exact ⟨rfl, rfl, hj⟩
+  · rintro ⟨h1, h2, h3⟩; exact ⟨key.view, h3, by cases key; simp_all⟩
+
+theorem collect_init (c : Cfg) (r ts : Nat) : collect c Storage.init r ts = (Storage.init, none) := by
+  unfold collect
+  split
+  · simp only [swap, build, Storage.init, buildMetrics, TState.init]
+    split <;> simp
+  · rfl
+
+/-- the meter state is consistent with history `h` -/
+structure MInv (mc : MCfg) (h : List MOp) (m : Meter) : Prop where
+  handles : m.handles = (created h).map fun nk => (nk.2, streamKeys mc nk.1 nk.2)
+  collects : m.collects = collectsIn h
+  /-- every stream's storage is in the state its own projected history leads to -/
+  state : ∀ key, (m.registry key).getD Storage.init = (srunRev mc.cfg (proj mc key h)).1
+  /-- a stream is registered iff some handle was created for its instrument -/
+  reg : ∀ key, (m.registry key).isSome = true ↔ ∃ nk ∈ created h, key ∈ streamKeys mc nk.1 nk.2
+  keys : ∀ key, key ∈ m.keys ↔ (m.registry key).isSome = true
+
+theorem foldl_register (ks : List StreamKey) : ∀ (m : Meter),
+    (∀ key, ((ks.foldl register m).registry key) =
+        if key ∈ ks ∧ m.registry key = none then some Storage.init else m.registry key) ∧
+    (ks.foldl register m).handles = m.handles ∧ (ks.foldl register m).collects = m.collects ∧
+    (∀ key, key ∈ (ks.foldl register m).keys ↔ (key ∈ m.keys ∨ (key ∈ ks ∧ m.registry key = none))) := by
+  induction ks with
+  | nil => intro m; simp
+  | cons k t ih =>
+    intro m
+    simp only [List.foldl_cons]
+    obtain ⟨h1, h2, h3, h4⟩ := ih (register m k)
+    cases hk : m.registry k with
+    | some s0 =>
+      have hreg : register m k = m := by simp [register, hk]
+      rw [hreg] at h1 h2 h3 h4 ⊢
+      refine ⟨?_, h2, h3, ?_⟩
+      · intro key; rw [h1 key]
+        by_cases hkk : key = k
+        · subst hkk; simp [hk]
+        · simp [hkk]
+      · intro key; rw [h4 key]
+        by_cases hkk : key = k
+        · subst hkk; simp [hk]
+        · simp [hkk]
+    | none =>
+      have hreg : (register m k).registry = fun x => if x = k then some Storage.init else m.registry x := by
+        simp [register, hk]
+      have hkeys : (register m k).keys = m.keys ++ [k] := by simp [register, hk]
+      have hh : (register m k).handles = m.handles := by simp [register, hk]
+      have hc : (register m k).collects = m.collects := by simp [register, hk]
+      refine ⟨?_, h2.trans hh, h3.trans hc, ?_⟩
+      · intro key; rw [h1 key, hreg]
+        by_cases hkk : key = k
+        · subst hkk; simp [hk]
+        · simp [hkk]
+      · intro key; rw [h4 key, hreg, hkeys]
+        by_cases hkk : key = k
+        · subst hkk; simp [hk]
+        · simp [hkk]
+
+theorem minv_init (mc : MCfg) : MInv mc [] Meter.init := by
+  constructor <;> simp [Meter.init, created, collectsIn, proj, srunRev]
+
+theorem minv_step (mc : MCfg) (h : List MOp) (m : Meter) (op : MOp) (hi : MInv mc h m) :
+    MInv mc (op :: h) (mstep mc m op) := by
+  cases op with
+  | create n k =>
+    obtain ⟨h1, h2, h3, h4⟩ := foldl_register (streamKeys mc n k) m
+    simp only [mstep, mcreate]
+    constructor
+    · simp [h2, hi.handles, created]
+    · simp [h3, hi.collects, collectsIn]
+    · intro key
+      simp only [h1 key, proj]
+      rw [← hi.state key]
+      split
+      · rename_i hc; simp [hc.2]
+      · rfl
+    · intro key
+      simp only [h1 key, created, List.mem_append, List.mem_singleton]
+      constructor
+      · intro hs
+        by_cases hc : key ∈ streamKeys mc n k ∧ m.registry key = none
+        · exact ⟨(n, k), Or.inr rfl, hc.1⟩
+        · simp only [hc, if_false] at hs
+          obtain ⟨nk, hm, hk⟩ := (hi.reg key).mp hs
+          exact ⟨nk, Or.inl hm, hk⟩
+      · rintro ⟨nk, hm | hm, hk⟩
+        · have := (hi.reg key).mpr ⟨nk, hm, hk⟩
+          split
+          · rfl
+          · exact this
+        · subst hm
+          cases hr : m.registry key with
+          | none => simp [hk]
+          | some s0 => simp
+    · intro key
+      simp only [h4 key, h1 key, hi.keys key]
+      cases hr : m.registry key with
+      | none => by_cases hk : key ∈ streamKeys mc n k <;> simp [hk]
+      | some s0 => simp
+  | add hd a v =>
+    simp only [mstep, madd]
+    have hh : m.handles[hd]? = ((created h)[hd]?).map fun nk => (nk.2, streamKeys mc nk.1 nk.2) := by
+      rw [hi.handles]; simp
+    cases hc : (created h)[hd]? with
+    | none =>
+      rw [hh, hc]; simp only [Option.map_none]
+      exact ⟨by simpa [created] using hi.handles, by simpa [collectsIn] using hi.collects,
+        fun key => by simpa [proj, hc] using hi.state key, fun key => by simpa [created] using hi.reg key, hi.keys⟩
+    | some nk =>
+      obtain ⟨n, k⟩ := nk
+      rw [hh, hc]; simp only [Option.map_some]
+      cases he : effective k v with
+      | none =>
+        simp only
+        exact ⟨by simpa [created] using hi.handles, by simpa [collectsIn] using hi.collects,
+          fun key => by
+            have := hi.state key
+            simp only [proj, hc, he]; split <;> exact this,
+          fun key => by simpa [created] using hi.reg key, hi.keys⟩
+      | some v' =>
+        simp only
+        have hmemc : (n, k) ∈ created h := List.mem_of_getElem? hc
+        refine ⟨by simpa [created] using hi.handles, by simpa [collectsIn] using hi.collects, ?_, ?_, ?_⟩
+        · intro key
+          simp only [proj, hc, he, List.contains_iff_mem]
+          by_cases hk : key ∈ streamKeys mc n k
+          · have hcond := (mem_streamKeys mc n k key).mp hk
+            have hsome := (hi.reg key).mpr ⟨(n, k), hmemc, hk⟩
+            rw [if_pos hk, if_pos hcond]
+            simp only [srunRev, sstep]
+            rw [← hi.state key]
+            cases hr : m.registry key with
+            | none => rw [hr] at hsome; simp at hsome
+            | some s0 => simp
+          · have hcond : ¬ (n = key.name ∧ k = key.kind ∧ key.view < nStreams mc n k) :=
+              fun hc' => hk ((mem_streamKeys mc n k key).mpr hc')
+            rw [if_neg hk, if_neg hcond]
+            exact hi.state key
+        · intro key
+          simp only [created, List.contains_iff_mem]
+          rw [← hi.reg key]
+          split <;> simp
+        · intro key
+          simp only [List.contains_iff_mem]
+          rw [hi.keys key]
+          split <;> simp
+  | collect r =>
+    simp only [mstep, mcollect]
+    refine ⟨by simpa [created] using hi.handles, by simp [collectsIn, hi.collects], ?_, ?_, ?_⟩
+    · intro key
+      simp only [proj, srunRev, sstep]
+      rw [← hi.state key, hi.collects]
+      cases hr : m.registry key with
+      | none => simp [collect_init]
+      | some s0 => simp
+    · intro key; simp only [created]; rw [← hi.reg key]; simp
+    · intro key; simp only []; rw [hi.keys key]; simp
+
+/-- the consistency invariant holds after every meter history -/
+theorem minv_run (mc : MCfg) : ∀ h : List MOp, MInv mc h (mrunRev mc h)
+  | [] => minv_init mc
+  | op :: h => minv_step mc h _ op (minv_run mc h)
+
+/-- what reader `r` receives for stream `key` when it collects after meter history `h` -/
+def streamOut (mc : MCfg) (h : List MOp) (r : Nat) (key : StreamKey) : Option MetricData :=
+  (mcollect mc (mrunRev mc h) r).2 key
+
+/-- a stream of the meter behaves exactly like one storage driven by the stream's projected history -/
+theorem streamOut_eq (mc : MCfg) (h : List MOp) (r : Nat) (key : StreamKey) :
+    streamOut mc h r key = (collect mc.cfg (srunRev mc.cfg (proj mc key h)).1 r (collectsIn h + 1)).2 := by
+  have hi := minv_run mc h
+  unfold streamOut mcollect
+  simp only []
+  rw [← hi.state key, hi.collects]
+  cases hr : (mrunRev mc h).registry key with
+  | none => simp [collect_init]
+  | some s0 => simp
+
+/-- **Refinement at the meter**: for every meter history, every stream and every reader, a collection hands the
+    reader exactly what the property prescribes for the stream's history. -/
+theorem meter_collect_matches (mc : MCfg) (h : List MOp) (r : Nat) (key : StreamKey) (hr : r < mc.cfg.n) :
+    Matches (streamOut mc h r key) (expected mc.cfg r (proj mc key h) (collectsIn h + 1)) := by
+  rw [streamOut_eq]; exact collect_matches mc.cfg _ r _ hr
+
+/-- Σ of everything added for `a` through **any** handle created for instrument `(n, k)` (values as they reach the
+    aggregation: a monotonic instrument ignores negative values) -/
+def instrTotal (n : Nat) (k : Kind) : List MOp → Nat → Int
+  | [], _ => 0
+  | .add hd a' v :: o, a =>
+    (match (created o)[hd]? with
+     | some nk => if nk = (n, k) ∧ a' = a then (effective k v).getD 0 else 0
+     | none => 0) + instrTotal n k o a
+  | .create _ _ :: o, a => instrTotal n k o a
+  | .collect _ :: o, a => instrTotal n k o a
+
+theorem recorded_proj (mc : MCfg) (key : StreamKey) (hv : key.view < nStreams mc key.name key.kind) (a : Nat) :
+    ∀ h : List MOp, recorded (proj mc key h) a = instrTotal key.name key.kind h a
+  | [] => rfl
+  | .create _ _ :: o => by simpa [proj, instrTotal] using recorded_proj mc key hv a o
+  | .collect _ :: o => by simpa [proj, instrTotal, recorded] using recorded_proj mc key hv a o
+  | .add hd a' v :: o => by
+    have ih := recorded_proj mc key hv a o
+    simp only [proj, instrTotal]
+    cases hc : (created o)[hd]? with
+    | none => simpa using ih
+    | some nk =>
+      obtain ⟨n, k⟩ := nk
+      simp only
+      by_cases hnk : n = key.name ∧ k = key.kind
+      · obtain ⟨rfl, rfl⟩ := hnk
+        simp only [true_and, hv, if_true]
+        cases he : effective key.kind v with
+        | none => simp [ih]
+        | some v' => by_cases ha : a' = a <;> simp [recorded, ha, ih]
+      · have h1 : ¬ (n = key.name ∧ k = key.kind ∧ key.view < nStreams mc n k) := fun hh => hnk ⟨hh.1, hh.2.1⟩
+        have h2 : ¬ ((n = key.name ∧ k = key.kind) ∧ a' = a) := fun hh => hnk hh.1
+        simp [h1, h2, ih]
+
+/-- **every_handle_counts** / **every_view_stream_counts** (cumulative reader): for every stream configured for an
+    instrument — the default stream or the stream of each matching view — a cumulative reader's point for `a` is the
+    Σ of everything added for `a` through *every* handle obtained for that instrument. -/
+theorem every_handle_counts_cumulative (mc : MCfg) (h : List MOp) (r : Nat) (key : StreamKey) (hr : r < mc.cfg.n)
+    (hc : mc.cfg.temp r = .cumulative) (hv : key.view < nStreams mc key.name key.kind) (a : Nat) :
+    valAt (pointsOf (streamOut mc h r key)) a = instrTotal key.name key.kind h a := by
+  rw [streamOut_eq, cumulative_running_total_rev mc.cfg _ r _ hr hc a, recorded_proj mc key hv a h]
+
+/-- **every_handle_counts** / **every_view_stream_counts** (delta reader): the point is the Σ of what was added,
+    through every handle of the instrument, since this reader's previous collection; over the reader's successive
+    collections these add up to `instrTotal` (`delta_conservation_rev` applied to the projected history). -/
+theorem every_handle_counts_delta (mc : MCfg) (h : List MOp) (r : Nat) (key : StreamKey) (hr : r < mc.cfg.n)
+    (hd : mc.cfg.temp r = .delta) (hv : key.view < nStreams mc key.name key.kind) (a : Nat) :
+    valAt (pointsOf (streamOut mc h r key)) a = recSince r (proj mc key h) a ∧
+    delivered r (srunRev mc.cfg (proj mc key h)).2 a + valAt (pointsOf (streamOut mc h r key)) a
+      = instrTotal key.name key.kind h a := by
+  rw [streamOut_eq]
+  exact ⟨interval_exact_rev mc.cfg _ r _ hr hd a,
+    by rw [delta_conservation_rev mc.cfg _ r _ hr hd a, recorded_proj mc key hv a h]⟩
+
+/-- **every_view_stream_counts** (existence): once a handle has been created for instrument `(n, k)`, each of its
+    streams — one per matching view, or the default one — is registered, hence collected by every `Meter::Collect`. -/
+theorem every_view_stream_registered (mc : MCfg) (h : List MOp) (n : Nat) (k : Kind) (hc : (n, k) ∈ created h)
+    (j : Nat) (hj : j < nStreams mc n k) : (⟨n, k, j⟩ : StreamKey) ∈ (mrunRev mc h).keys := by
+  have hi := minv_run mc h
+  rw [hi.keys, hi.reg]
+  exact ⟨(n, k), hc, (mem_streamKeys mc n k _).mpr ⟨rfl, rfl, hj⟩⟩
+
+/-- the number of streams of an instrument: one per matching view, one (the default view) when none matches -/
+theorem nStreams_pos (mc : MCfg) (n : Nat) (k : Kind) : 0 < nStreams mc n k := by
+  unfold nStreams; simp only []; split <;> omega
+
+/-! ### examples: the hypotheses are satisfiable, and the two repaired deviations in the model -/
+
+private def kc : Kind := ⟨true, false⟩
+
+/-- D09 witness: two handles for one counter, `Add 10` through the first, `Add 100` through the second: the reader
+    receives 110 (the code before the fix reported 100).  History most recent first. -/
+example : valAt (pointsOf (streamOut ⟨[.cumulative], []⟩
+    [.add 1 7 100, .add 0 7 10, .create 0 kc, .create 0 kc] 0 ⟨0, kc, 0⟩)) 7 = 110 := by decide
+
+/-- two views on one instrument: both streams are collected with everything added -/
+example : (valAt (pointsOf (streamOut ⟨[.cumulative], [(0, true), (0, true)]⟩
+    [.add 0 7 5, .create 0 kc] 0 ⟨0, kc, 0⟩)) 7, valAt (pointsOf (streamOut ⟨[.cumulative], [(0, true), (0, true)]⟩
+    [.add 0 7 5, .create 0 kc] 0 ⟨0, kc, 1⟩)) 7) = (5, 5) := by decide
+
+/-- D08 witness: the second delta point of a single delta reader starts where the first ended (stamp 1), not at
+    SDK start (0) -/
+example : (streamOut ⟨[.delta], []⟩ [.add 0 7 7, .collect 0, .add 0 7 5, .create 0 kc] 0 ⟨0, kc, 0⟩).map
+    (fun md => (md.startTs, md.endTs, valAt md.points 7)) = some (1, 2, 7) := by decide
 
 end Otel.C06
